@@ -73,13 +73,13 @@ FMax(a, b) == IF FLe(b, a) THEN a ELSE b
 \* an exact rational <<n, d>> read in the current ring (binds pair-coded fields of a record
 \* to residue-coded ones)
 FOfQ(q) == FDiv(FI(q[1]), FI(q[2]))
-\* Records of the symbolic lane (harness element type Sym): a ring element is logged as {"p": [[coefficient,
+\* Records of the symbolic lane (harness element type Sym): a ring element is logged as {"ply": [[coefficient,
 \* monomial], ...]} and the record's field `shp` describes where they are: [t |-> "P"] a polynomial,
 \* [t |-> "L", e |-> <<..>>] a list with one descriptor per element, [t |-> "R", f |-> [field |-> ..]] a record
 \* (fields that hold no polynomial are not listed), [t |-> "K"] anything else.  DecodeTrace turns them into
 \* VekPoly values before the ordinary actions of a trace specification are evaluated, so the same actions
 \* validate sampled and symbolic records.
-PolyOfJson(x) == {<<x.p[i][2], x.p[i][1]>> : i \in DOMAIN x.p}
+PolyOfJson(x) == {<<x.ply[i][2], x.ply[i][1]>> : i \in DOMAIN x.ply}
 RECURSIVE DecodeBy(_, _)
 DecodeBy(D, x) == CASE D.t = "P" -> PolyOfJson(x)
                     [] D.t = "K" -> x
